@@ -102,7 +102,7 @@ var Cases = []Case{
 		Oracles: orc("result", "list", "state", "open", "restart")}),
 	seqCase("C01", "dbworld-acl", 1, dbworld.Profile{Restricted: 3, HTTPMode: 1, RuleChanges: true, AuditFaults: true, Dashboard: true, MaxOps: 60, MaxNames: 4,
 		Oracles: orc("denied", "denied-identical", "result", "list", "state", "open")}),
-	seqCase("C03", "dbworld-restart", 1, dbworld.Profile{RestartMode: 1, Golden: true, LaxModes: true, DiskFaults: true, Symlinks: true, MaxOps: 30, MaxNames: 3,
+	seqCase("C03", "dbworld-restart", 1, dbworld.Profile{RestartMode: 1, Golden: true, LaxModes: true, KEKRotate: true, DiskFaults: true, Symlinks: true, MaxOps: 30, MaxNames: 3,
 		Oracles: orc("result", "list", "state", "restart", "open-modifies", "golden", "open")}),
 	seqCase("C09", "dbworld-cond", 1, dbworld.Profile{HTTPMode: 1, Restricted: 1, RestartMode: 1, CondHeavy: true, FileClient: true, DiskFaults: true, AuditFaults: true, HugeValues: true, MaxOps: 40, MaxNames: 2,
 		Oracles: orc("result", "state", "denied", "open", "fileclient")}),
@@ -110,7 +110,7 @@ var Cases = []Case{
 		Oracles: orc("audit", "audit-quiet", "audit-order", "audit-failclosed", "open")}),
 	seqCase("C08", "dbworld-http", 1, dbworld.Profile{Restricted: 2, HTTPMode: 2, Corruptions: true, RuleChanges: true, AuditFaults: true, Dashboard: true, HugeValues: true, MaxOps: 40, MaxNames: 3,
 		Oracles: orc("http-gate", "http-status", "http-leak", "result", "list", "denied", "state", "audit", "open")}),
-	seqCase("C05", "dbworld-scan", 3, dbworld.Profile{Scan: true, KEKOutage: true, RestartMode: 1, LaxModes: true, Soak: true, MaxOps: 25, MaxNames: 3,
+	seqCase("C05", "dbworld-scan", 3, dbworld.Profile{Scan: true, KEKOutage: true, RestartMode: 1, LaxModes: true, KEKRotate: true, Soak: true, MaxOps: 25, MaxNames: 3,
 		Oracles: orc("plaintext", "mode", "kek", "result", "state", "restart", "open", "audit-noleak")}),
 	tamperCase(),
 	concCase("C14", "dbworld-conc", 1, false, orc("linearizable", "deadlock")),
